@@ -1440,6 +1440,7 @@ def longitude_continuity(coordinates, region):
     all_globe = np.allclose(abs(e - w), 360)
     # Move coordinates to [0, 360)
     interval_360 = True
+    west, east = w, e
     w = w % 360
     e = e % 360
     # Move west=0 and east=360 if region longitudes goes all around the globe
@@ -1448,8 +1449,10 @@ def longitude_continuity(coordinates, region):
     # Check if the [-180, 180) interval is better suited
     if w > e:
         interval_360 = False
-        e = ((e + 180) % 360) - 180
-        w = ((w + 180) % 360) - 180
+        # Wrap the original bounds with the same operations applied to the
+        # coordinates below so that both round in the same way
+        e = ((east + 180) % 360) - 180
+        w = ((west + 180) % 360) - 180
     region = np.array(region)
     region[:2] = w, e
     # Modify extra coordinates if passed
